@@ -222,6 +222,19 @@ CLAIMS = {
         note="Trusted: Lean kernel/Mathlib/standard axioms; harness; mpire's pool, its chunking and result ordering, and the OS scheduler are sampled, not proved (the theorem is about "
              "the abstract reassembly); matplotlib Triangulation. Non-strict sum check: |x+y+z−1| ≤ 4e-16.",
         ref="§7 C20"),
+    "C03": dict(
+        technique="Lean 4 proof (periodic bookkeeping after qhull: floor/mod offsets, de-duplication key, one edge per key) + exact correspondence on the recorded qhull output + independent periodic Delaunay oracle",
+        text="Kernel-checked theorems about the exact model of everything generate_lattice does after the Voronoi call: for a vertex base+offset with base strictly inside the cell, "
+             "floor gives the offset and mod 1 gives the base, so the stored crossing of an edge is the cell offset between its ends and negates when they are swapped; the (0,1] test "
+             "holds exactly for zero offset; the de-duplication key is the same for the two finds of one translation class of ridges (ends swapped, crossing negated), distinguishes ridges "
+             "between the same two vertices that wind differently (parallel edges survive) and determines the unordered vertex pair; de-duplication keeps exactly one found edge per key; a "
+             "trivalent torus tiling by N cells has 2N vertices and 3N edges. The Voronoi object koala uses is wrapped and its (shifted) vertices and ridges are handed exactly to the "
+             "model, whose edge list, crossings and kept vertices must equal koala's; the statement is evaluated against an independent 7×7 periodic Delaunay reference under the "
+             "statement's own density precondition, incl. the tiling consequences and Lloyd relaxation.",
+        note="Partial by nature: qhull (scipy Voronoi/Delaunay) and the exactness of the 3×3 / 5×5 replication under the density bound are trusted (the bound is computed independently and "
+             "failing point sets are precondition-excluded); KDTree queries are modelled by an exact argmin; the vertex shift is recorded and checked against the reference centroids, "
+             "not modelled. Trusted: Lean kernel/Mathlib/standard axioms; harness.",
+        ref="§7 C03"),
 }
 
 PENDING_REASON = "check not built yet in this revision (work in progress; see DESIGN.md §7 for the planned Lean model and tie)"
